@@ -314,3 +314,15 @@ pub fn batch_check(
 pub fn opening_key(pp: &PublicParameters) -> OpeningKey {
     pp.opening_key.clone()
 }
+
+/// `CommitKey::from_raw_var_bytes` round trip: returns the re-encoding and the number of points.
+pub fn commit_key_from_raw(bytes: &[u8]) -> Result<(Vec<u8>, usize), Error> {
+    let ck = CommitKey::from_raw_var_bytes(bytes)?;
+    Ok((ck.to_raw_var_bytes(), ck.max_degree() + 1))
+}
+
+/// `Evaluations::from_slice` round trip: returns the re-encoding and the number of evaluations.
+pub fn evaluations_roundtrip(bytes: &[u8]) -> Result<(Vec<u8>, usize), Error> {
+    let e = crate::fft::Evaluations::from_slice(bytes)?;
+    Ok((e.to_var_bytes(), e.evals.len()))
+}
